@@ -43,7 +43,7 @@ def regen():
     ok = (r.returncode == 0)
     changed = False
     if ok:
-        for f in ('HashGen.v', 'MemOrders.v'):
+        for f in ('HashGen.v', 'MemOrders.v', 'EffectOrder.v'):
             new = open(os.path.join(BUILD, 'gen_new', f)).read()
             dst = os.path.join(COQ, 'gen', f)
             old = open(dst).read() if os.path.exists(dst) else None
